@@ -12,6 +12,11 @@ import (
 	"strings"
 	"testing"
 
+	"github.com/jf-tech/omniparser"
+	"github.com/jf-tech/omniparser/customfuncs"
+	"github.com/jf-tech/omniparser/extensions/omniv21"
+	v21 "github.com/jf-tech/omniparser/extensions/omniv21/customfuncs"
+	"github.com/jf-tech/omniparser/transformctx"
 	"pgregory.net/rapid"
 
 	"verifharness/gen"
@@ -48,6 +53,13 @@ type c15Case struct {
 	MutSub int        `json:"mut_sub"`
 	// Sample > 0: the measured transform is repository sample number Sample instead of Shape/Recs
 	Sample int `json:"sample,omitempty"`
+	// OwnExtension: somewhere in the history the process builds an Extension the documented way - customfuncs.Merge(
+	// CommonCustomFuncs, OmniV21CustomFuncs, own functions), the own ones overriding builtins ("upper", "lower", "concat")
+	// and adding a new name - and runs a transform through it. Schemas of the default extension must not notice.
+	OwnExtension bool `json:"own_extension,omitempty"`
+	// ReuseCtx: the other transforms and the second measured run are given ONE transformctx.Ctx value (each under its
+	// own input name), as a caller does who builds the context once.
+	ReuseCtx bool `json:"reuse_ctx,omitempty"`
 }
 
 func genC15(t *rapid.T) c15Case {
@@ -84,6 +96,8 @@ func genC15(t *rapid.T) c15Case {
 		c.Others = append(c.Others, o)
 	}
 	c.Child = rapid.IntRange(0, 2).Draw(t, "child") == 0
+	c.OwnExtension = rapid.IntRange(0, 3).Draw(t, "ownExtension") == 0
+	c.ReuseCtx = rapid.IntRange(0, 2).Draw(t, "reuseCtx") == 0
 	if len(c.Recs) > 0 {
 		c.MutRec = rapid.IntRange(0, len(c.Recs)-1).Draw(t, "mutRec")
 		c.MutCol = rapid.IntRange(0, c.Shape.NCols+c.Shape.NSub-1).Draw(t, "mutCol")
@@ -167,6 +181,33 @@ func c15RunChild(schema string, in []byte) ([]run.Step, error) {
 	return nil, fmt.Errorf("child printed no transcript:\n%s", out)
 }
 
+// c15UseOwnExtension does what doc/programmability.md shows: an Extension whose function table is Merge(common, omni.2.1,
+// own), the own functions shadowing builtins, used for one schema and one transform. Returns "" unless that use itself
+// misbehaves.
+func c15UseOwnExtension() string {
+	own := customfuncs.CustomFuncs{
+		"upper":  func(_ *transformctx.Ctx, s string) (string, error) { return "OWN-UPPER(" + s + ")", nil },
+		"lower":  func(_ *transformctx.Ctx, s string) (string, error) { return "OWN-LOWER(" + s + ")", nil },
+		"concat": func(_ *transformctx.Ctx, ss ...string) (string, error) { return "OWN-CONCAT", nil },
+		"c15own": func(_ *transformctx.Ctx, s string) (string, error) { return "own:" + s, nil },
+	}
+	ext := omniparser.Extension{
+		CreateSchemaHandler: omniv21.CreateSchemaHandler,
+		CustomFuncs:         customfuncs.Merge(customfuncs.CommonCustomFuncs, v21.OmniV21CustomFuncs, own),
+	}
+	schema := `{"parser_settings":{"version":"omni.2.1","file_format_type":"json"},"transform_declarations":{"FINAL_OUTPUT":{"object":{
+		"u":{"custom_func":{"name":"upper","args":[{"xpath":"a"}]}},"o":{"custom_func":{"name":"c15own","args":[{"xpath":"a"}]}}}}}}`
+	sch, err := omniparser.NewSchema("own", strings.NewReader(schema), ext)
+	if err != nil {
+		return "schema for a caller-built extension rejected: " + err.Error()
+	}
+	steps, err := run.Transcript(sch, strings.NewReader(`{"a":"x"}`), run.Opts{InputLen: 9})
+	if err != nil || len(steps) == 0 || steps[0].JSON != `{"o":"own:x","u":"OWN-UPPER(x)"}` {
+		return fmt.Sprintf("a caller-built extension (own functions shadowing builtins) does not use the caller's functions: %+v %v", steps, err)
+	}
+	return ""
+}
+
 func checkC15(c c15Case) obs.Result {
 	schema, in, ok := c15Subject(c.Sample, c.Shape, c.Recs)
 	if !ok {
@@ -184,6 +225,11 @@ func checkC15(c c15Case) obs.Result {
 		return run.Transcript(shared, bytes.NewReader(input), run.Opts{InputLen: len(input), WithRaw: true, External: ext})
 	}
 	onShared := func(input []byte) ([]run.Step, error) { return onSharedExt(input, c15ExtA) }
+	var reused *transformctx.Ctx
+	if c.ReuseCtx {
+		reused = &transformctx.Ctx{}
+		classes = append(classes, "ctx-value-reused")
+	}
 	// the Schema object's very first use is by ANOTHER transform (other external properties, same input): whatever it
 	// computes must not stick to the schema (compared below with a run on a freshly parsed Schema)
 	if c.Child || len(c.Others)%2 == 1 {
@@ -196,7 +242,13 @@ func checkC15(c c15Case) obs.Result {
 	}
 	// other transforms in the same process: fill pools and caches, advance the ID counter; some of them use the
 	// very same Schema object, some of those on an input that ends in the middle of a record
-	for _, o := range c.Others {
+	if c.OwnExtension {
+		if msg := c15UseOwnExtension(); msg != "" {
+			return obs.Violationf("%s", msg)
+		}
+		classes = append(classes, "own-extension-in-history")
+	}
+	for oi, o := range c.Others {
 		oschema, oin, ok := c15Subject(o.Sample, o.Shape, o.Recs)
 		if !ok {
 			continue
@@ -214,11 +266,21 @@ func checkC15(c c15Case) obs.Result {
 			}
 			continue
 		}
+		if reused != nil {
+			osch, err := run.NewSchema(oschema)
+			if err != nil {
+				continue
+			}
+			if _, err := run.Transcript(osch, bytes.NewReader(oin), run.Opts{InputLen: len(oin), WithRaw: true, External: c15ExtB, Ctx: reused, InputName: fmt.Sprintf("other-%d", oi)}); err != nil {
+				return obs.Result{Excluded: "other transform has no terminal result"}
+			}
+			continue
+		}
 		if _, err := c15Run(oschema, oin); err != nil {
 			return obs.Result{Excluded: "other transform has no terminal result"}
 		}
 	}
-	second, err := onShared(in)
+	second, err := run.Transcript(shared, bytes.NewReader(in), run.Opts{InputLen: len(in), WithRaw: true, External: c15ExtA, Ctx: reused})
 	if err != nil {
 		return obs.Violationf("second run of the same transform does not terminate: %v", err)
 	}
